@@ -62,7 +62,20 @@ var c16Edges = func() map[string][]c16Edge {
 		c16Edge{"unavailable", "registering", "submit:register"})
 	svc = append(svc, c16Edge{"pause", "available", "cascade:unpause"}, c16Edge{"pause", "logouting", "submit:logout"},
 		c16Edge{"pause", "forbidden", "cascade:clear"}, c16Edge{"logouting", "forbidden", "cascade:clear"})
-	return map[string][]c16Edge{"appchain": common, "service": svc}
+	role := []c16Edge{
+		{"available", "freezing", "submit:freeze"}, {"freezing", "frozen", "approve"}, {"freezing", "*last", "reject"},
+		{"frozen", "activating", "submit:activate"}, {"activating", "available", "approve"}, {"activating", "*last", "reject"},
+		{"available", "logouting", "submit:logout"}, {"freezing", "logouting", "submit:logout"}, {"frozen", "logouting", "submit:logout"}, {"activating", "logouting", "submit:logout"},
+		{"logouting", "forbidden", "approve"}, {"logouting", "*last", "reject"},
+	}
+	node := []c16Edge{
+		{"none", "registering", "submit:register"}, {"unavailable", "registering", "submit:register"},
+		{"registering", "available", "approve"}, {"registering", "*last", "reject"}, {"registering", "unavailable", "reject"},
+		{"available", "updating", "submit:update"}, {"updating", "*last", "approve"}, {"updating", "*last", "reject"},
+		{"available", "logouting", "submit:logout"}, {"updating", "logouting", "submit:logout"},
+		{"logouting", "forbidden", "approve"}, {"logouting", "*last", "reject"},
+	}
+	return map[string][]c16Edge{"appchain": common, "service": svc, "role": role, "node": node}
 }()
 
 var c16Available = map[string]bool{"available": true, "freezing": true}
@@ -75,6 +88,7 @@ type c16Inst struct {
 	last     *c16Step
 	restarts int
 	regOpen  string // id of the pending registration proposal of service A:s4 ("" = none)
+	objs     map[string]*c16Obj
 }
 
 type c16Open struct {
@@ -97,7 +111,7 @@ type c16Step struct {
 }
 
 func newC16Inst() *c16Inst {
-	in := &c16Inst{w: fix.BaseWorld(fix.Options{}), nextReq: map[string]uint64{}, status: map[string]string{}}
+	in := &c16Inst{w: fix.BaseWorld(fix.Options{}), nextReq: map[string]uint64{}, status: map[string]string{}, objs: c16Objs}
 	in.status = in.readAll()
 	return in
 }
@@ -118,7 +132,7 @@ func (in *c16Inst) readStatus(o *c16Obj) string {
 
 func (in *c16Inst) readAll() map[string]string {
 	m := map[string]string{}
-	for n, o := range c16Objs {
+	for n, o := range in.objs {
 		m[n] = in.readStatus(o)
 	}
 	return m
@@ -143,9 +157,21 @@ func (in *c16Inst) apply(op string) bool {
 		if in.open != nil {
 			return false
 		}
-		o := c16Objs[f[1]]
-		method := map[string]string{"freeze": "Freeze", "activate": "Activate", "logout": "Logout"}[f[2]] + map[string]string{"appchain": "Appchain", "service": "Service"}[o.kind]
-		st.res = w.Block(w.InvokeTx(c16Submitter(o, f[2]), o.contract, method, pb.String(o.id), pb.String("reason")))
+		o := in.objs[f[1]]
+		if o == nil {
+			return false
+		}
+		method := map[string]string{"freeze": "Freeze", "activate": "Activate", "logout": "Logout", "register": "Register", "update": "Update"}[f[2]] + map[string]string{"appchain": "Appchain", "service": "Service", "role": "Role", "node": "Node"}[o.kind]
+		switch {
+		case o.kind == "node" && f[2] == "register":
+			st.res = w.Block(w.InvokeTx(fix.AdminKeys[1], o.contract, method, pb.String(o.id), pb.String("nvpNode"), pb.String(""), pb.Uint64(0), pb.String("nvp-c16"), pb.String(fix.ChainA), pb.String("reason")))
+		case o.kind == "node" && f[2] == "update":
+			st.res = w.Block(w.InvokeTx(fix.AdminKeys[1], o.contract, method, pb.String(o.id), pb.String(fmt.Sprintf("nvp-c16-%d", w.Blocks)), pb.String(fix.ChainA), pb.String("reason")))
+		case o.kind == "node" || o.kind == "role":
+			st.res = w.Block(w.InvokeTx(fix.AdminKeys[0], o.contract, method, pb.String(o.id), pb.String("reason")))
+		default:
+			st.res = w.Block(w.InvokeTx(c16Submitter(o, f[2]), o.contract, method, pb.String(o.id), pb.String("reason")))
+		}
 		st.target, st.trigger = f[1], "submit:"+f[2]
 		if rc := st.res.Receipts[0]; rc.IsSuccess() {
 			st.accepted = true
@@ -233,7 +259,7 @@ func (in *c16Inst) check(c *mc.Ctx, path []string) {
 	c.Add("oracle_evaluations", 1)
 	after := in.readAll()
 	// (L) lifecycle: every observed status change is a declared edge with a matching trigger
-	for name, o := range c16Objs {
+	for name, o := range in.objs {
 		from, to := st.before[name], after[name]
 		if from == to {
 			continue
@@ -267,7 +293,7 @@ func (in *c16Inst) check(c *mc.Ctx, path []string) {
 	}
 	// expected effect of a governance step on its target
 	if st.target != "" && st.accepted {
-		o := c16Objs[st.target]
+		o := in.objs[st.target]
 		from, to := st.before[st.target], after[st.target]
 		want := ""
 		switch st.trigger {
@@ -279,9 +305,17 @@ func (in *c16Inst) check(c *mc.Ctx, path []string) {
 			want = "logouting"
 		case "submit:register":
 			want = "registering"
+		case "submit:update":
+			want = "updating"
 		case "approve":
 			want = map[string]string{"freezing": "frozen", "activating": "available", "logouting": "forbidden"}[from]
-			if from == "registering" {
+			if from == "updating" {
+				want = "" // back to the status before the update: judged by the edge check
+			}
+			if from == "registering" && o.kind != "service" {
+				want = "available"
+			}
+			if from == "registering" && o.kind == "service" {
 				want = "" // available, or paused when the owning appchain is not available: judged by the invariant below
 			}
 		}
@@ -311,7 +345,7 @@ func (in *c16Inst) check(c *mc.Ctx, path []string) {
 		}
 	}
 	if st.target != "" && !st.accepted {
-		for name := range c16Objs {
+		for name := range in.objs {
 			if st.before[name] != after[name] {
 				bad("refused-operation-changed-status", "the refused operation changed %s: %s -> %s", name, st.before[name], after[name])
 			}
@@ -399,6 +433,32 @@ func (in *c16Inst) key() string {
 	return statusString(in.readAll()) + "|" + op + "|" + strings.Join(cs, ",") + "|" + used + fmt.Sprint(in.restarts)
 }
 
+// second exploration: a governance admin's role record and a (non-validating) node
+var c16ObjsRoleNode = map[string]*c16Obj{
+	"admin3": {"admin3", "role", fix.Addr(fix.AdminKeys[3]).String(), constant.RoleContractAddr, contracts.RoleKey(fix.Addr(fix.AdminKeys[3]).String())},
+	"nvp":    {"nvp", "node", fix.Addr(fix.Key("c16-nvp-node")).String(), constant.NodeManagerContractAddr, "node-" + fix.Addr(fix.Key("c16-nvp-node")).String()},
+}
+
+func c16RoleNode(c *mc.Ctx, depth int) {
+	ops := []string{"sub:admin3:freeze", "sub:admin3:activate", "sub:admin3:logout", "sub:nvp:register", "sub:nvp:update", "sub:nvp:logout", "conclude:approve", "conclude:reject", "restart"}
+	b := &mc.BFS{C: c, Name: "govmc-role-node", MaxDepth: depth,
+		Init: func() mc.Instance {
+			in := newC16Inst()
+			in.objs = c16ObjsRoleNode
+			in.status = in.readAll()
+			return in
+		},
+		Enabled: func(x mc.Instance, d int) []string { return ops },
+		Apply: func(x mc.Instance, op string, path []string) (bool, bool) {
+			return x.(*c16Inst).apply(op), false
+		},
+		Key:   func(x mc.Instance) string { return x.(*c16Inst).key() },
+		Check: func(x mc.Instance, path []string) { x.(*c16Inst).check(c, path) },
+		Close: func(x mc.Instance) { x.(*c16Inst).w.R.Close() },
+	}
+	b.Run()
+}
+
 func C16(c *mc.Ctx) {
 	var ops []string
 	for _, o := range []string{"chainA", "svcA1", "svcB2"} {
@@ -422,7 +482,9 @@ func C16(c *mc.Ctx) {
 		Close: func(x mc.Instance) { x.(*c16Inst).w.R.Close() },
 	}
 	b.Run()
+	c16RoleNode(c, depth)
 	fix.Cleanup()
+	c.Set("rule_role_node", "second BFS over {submit freeze/activate/logout of governance admin 3's role; submit register/update/logout of a non-validating node; conclude the open proposal by 3 approvals or 3 rejections; restart}: every status change of the role / node record must be an edge of its declared state machine for the step's trigger, forbidden is absorbing, refused operations change nothing")
 	c.Set("rule", "BFS over {submit freeze/activate/logout for appchain A, service A:s1, service B:s2; conclude the open proposal by 3 approvals or 3 rejections; IBTP request A:s1->B:s2 and B:s2->A:s1; node restart}; states merged on the abstraction (stored governance statuses, open proposal, the executor's cached service statuses, pairs used, restarts); after every step each observed status change must be an edge of the object's declared state machine for the step's trigger (or a cascade of the owning appchain), forbidden is absorbing, a refused operation changes nothing, and each request is accepted / recorded as begin-failed (status, source notified) / rejected without record according to the STORED availability of source and destination service")
 	c.Assume("state machines and the availability sets {available, freezing} are transcribed from the objects' FSM declarations (trusted base); rules, roles and nodes are exercised by C03/C15/C17, not here; the abstraction merges histories that differ only in heights, nonces, ids and counters")
 	_ = contracts.TRUE
